@@ -317,3 +317,57 @@ func VerifC16_D_merge_order() {
 	}
 	sym.Reach("C16.D.merge")
 }
+
+// P3: two annotated rules in one Makefile (beyond the line bound of P1): both become targets, in order,
+// each named by its annotation's `name:` or else by its rule - also when the two names coincide (rejecting
+// duplicates is the job of the DTO -> model step, D1, which sees both).
+func VerifC16_P_makefile_two_rules() {
+	yamlCalls = 0
+	yamlDocs = nil
+	rules := []string{"build:", "test: build", "build: dep"}
+	var lines []string
+	var ruleNames []string
+	annotated := make([]bool, 2)
+	for k := 0; k < 2; k++ {
+		lines = append(lines, "# @grog")
+		if flag(fmt.Sprintf("block_%d_has_annotation_text", k)) {
+			lines = append(lines, "# name: x")
+			annotated[k] = true
+		}
+		r := rules[sym.Choice(fmt.Sprintf("rule_%d", k), len(rules))]
+		lines = append(lines, r)
+		ruleNames = append(ruleNames, strings.Split(r, ":")[0])
+		if flag(fmt.Sprintf("recipe_after_%d", k)) {
+			lines = append(lines, "\tcmd")
+		}
+	}
+	p := newMakefileParser(bufio.NewScanner(sym.LinesReader(lines)))
+	pkg, found, err := p.parse()
+	want, rejected := refMakefile(lines, func(k int) bool { return sym.Choice(fmt.Sprintf("yaml_fails_%d", k), 2) == 0 })
+	sym.Assert((err != nil) == rejected, "C16.P3.two-rules-rejected-exactly-on-yaml-errors")
+	if err != nil {
+		sym.Reach("C16.P.two-rules.error")
+		return
+	}
+	sym.Assert(found && len(pkg.Targets) == 2 && len(want) == 2, "C16.P3.both-annotated-rules-become-targets")
+	if len(pkg.Targets) != 2 {
+		return
+	}
+	block := 0
+	for k := 0; k < 2; k++ {
+		t := pkg.Targets[k]
+		sym.Assert(t.Command == "make "+ruleNames[k], "C16.P3.targets-keep-rule-order-and-commands")
+		name := ruleNames[k]
+		if annotated[k] {
+			block++
+			// the YAML model chose this block's name (empty = no override)
+			if n := sym.StringAlpha(fmt.Sprintf("yaml_name_%d", block), 2, "ab"); n != "" {
+				name = n
+			}
+		}
+		sym.Assert(sym.StrEq(t.Name, name), "C16.P3.target-named-by-annotation-or-rule")
+	}
+	sym.Reach("C16.P.two-rules.ok")
+}
+
+func flag(name string) bool { return sym.Choice(name, 2) == 1 }
